@@ -1,3 +1,4 @@
+import ExprModel.Spec.Eval
 import ExprModel.Proofs.PatchOps
 import ExprModel.Props.C10
 /-
@@ -168,9 +169,43 @@ theorem config_check_total (types : List (String × FnTag)) (ops : List (String 
   | missing fn op => exact Or.inr (Or.inl ⟨fn, op, rfl⟩)
   | badSignature fn op => exact Or.inr (Or.inr ⟨fn, op, rfl⟩)
 
-/-- not stated here: that the VM evaluates `FunctionNode fn [l, r]` as `fn` applied to the values of
-    `l` and `r` in order (C01's compile-and-run conformance); the harness checks it on the real code. -/
-def call_semantics_goal : Prop := True
+/-! ### what the explicit call form means
+
+By the language definition (`Spec.eval`) the call `fn(l, r)` the patcher writes evaluates `l`, then `r`, then
+applies the environment's `fn` to the two values in that order, logging one call; C01's theorems
+(`run_conforms_*`) transfer every statement about `Spec.eval` to runs of the compiled program.  Together with
+`patch_eq_explicit` this is the property's sentence "evaluates to that function applied to the operands in
+order". -/
+
+private theorem sm_pure_bind {α β : Type} (a : α) (f : α → Spec.SM β) : (pure a >>= f) = f a := by
+  funext s; rfl
+
+private theorem sm_bind_assoc {α β γ : Type} (m : Spec.SM α) (f : α → Spec.SM β) (g : β → Spec.SM γ) :
+    (m >>= f >>= g) = (m >>= fun a => f a >>= g) := by
+  funext s
+  show Spec.SM.bind' (Spec.SM.bind' m f) g s = Spec.SM.bind' m (fun a => Spec.SM.bind' (f a) g) s
+  unfold Spec.SM.bind'
+  cases h : m s with
+  | mk r s' => cases r <;> simp
+
+private theorem evalList_cons_nonpair (c : Spec.SCfg) (ctx : Spec.Ctx) (n : Node) (rest : List Node)
+    (hn : ∀ mm k v, n ≠ .pair mm k v) :
+    Spec.evalList c ctx (n :: rest) =
+      (do let v ← Spec.eval c ctx n; let vs ← Spec.evalList c ctx rest; pure (v :: vs)) := by
+  cases n <;> first | (exact absurd rfl (hn _ _ _)) | (simp [Spec.evalList])
+
+/-- **call_semantics**: the explicit call of a two-argument function evaluates the operands left to right and
+    applies the function to their values in that order (one logged call, the function's result or failure) -/
+theorem call_semantics (c : Spec.SCfg) (ctx : Spec.Ctx) (m : Meta) (fn : String) (l r : Node) (fast : Bool)
+    (hl : ∀ mm k v, l ≠ .pair mm k v) (hr : ∀ mm k v, r ≠ .pair mm k v) :
+    Spec.eval c ctx (.func m fn [l, r] fast) = (do
+      let vl ← Spec.eval c ctx l
+      let vr ← Spec.eval c ctx r
+      let res := callMember c.world c.env fn [vl, vr]
+      if callHappened res then Spec.SM.logCall fn [vl, vr]
+      Spec.SM.lift res) := by
+  rw [Spec.eval, evalList_cons_nonpair c ctx l [r] hl, evalList_cons_nonpair c ctx r [] hr]
+  simp only [Spec.evalList, sm_bind_assoc, sm_pure_bind]
 
 /-! ### non-vacuity -/
 
